@@ -48,10 +48,13 @@ func (c *ConfigReceiver) Derive(adjust curve.Scalar, newChainKey []byte) (*Confi
 
 	adjustG := adjust.ActOnBase()
 
+	// The sharing is additive (sk = skReceiver + skSender): exactly one party adds the tweak.
+	// By convention this is the receiver; the sender only updates the public key.
 	return &ConfigReceiver{
 		Setup:       c.Setup,
 		SecretShare: c.SecretShare.Curve().NewScalar().Set(c.SecretShare).Add(adjust),
 		Public:      c.Public.Add(adjustG),
+		ChainKey:    newChainKey,
 	}, nil
 }
 
@@ -164,10 +167,13 @@ func (c *ConfigSender) Derive(adjust curve.Scalar, newChainKey []byte) (*ConfigS
 
 	adjustG := adjust.ActOnBase()
 
+	// The receiver adds the tweak to its additive share (see ConfigReceiver.Derive); adding it here
+	// as well would give shares of sk + 2·adjust under the public key (sk + adjust)·G.
 	return &ConfigSender{
 		Setup:       c.Setup,
-		SecretShare: c.SecretShare.Curve().NewScalar().Set(c.SecretShare).Add(adjust),
+		SecretShare: c.SecretShare.Curve().NewScalar().Set(c.SecretShare),
 		Public:      c.Public.Add(adjustG),
+		ChainKey:    newChainKey,
 	}, nil
 }
 
